@@ -93,6 +93,34 @@ func TestVerifDriver(t *testing.T) {
 		for _, t := range append(append([]string{}, hrps...), "Ed25519", "Alias", "NFT", "ed25519", "alias", "Nft", "", "NFT ") {
 			do("address.tables", M{"s": vInts([]byte(t))})
 		}
+		// every production prefix x every address type: the valid string, its other valid spelling, and every near miss -
+		// each near miss right after the valid string AND followed by it (what a rejected call leaves behind must not matter)
+		for pre := 0; pre < 4; pre++ {
+			for _, ver := range []int{0, 8, 16} {
+				l := 20
+				if ver == 0 {
+					l = 32
+				}
+				h := make([]byte, l)
+				r.Read(h)
+				s, err := Bech32(Prefix(pre), mkAddr(ver, h))
+				if err != nil {
+					continue
+				}
+				parse := func(t string) { do("address.Parse", M{"s": vInts([]byte(t))}) }
+				same, other := vBech32Neighbours(s)
+				parse(s)
+				for _, t := range same {
+					parse(t)
+				}
+				for i, t := range other {
+					parse(t)
+					if (i+pre+ver)%3 == 0 {
+						parse(s)
+					}
+				}
+			}
+		}
 		for k := 0; k < n; k++ {
 			ver := []int{0, 8, 16}[r.Intn(3)]
 			l := 20
